@@ -3,6 +3,7 @@ package world
 import (
 	"errors"
 	"fmt"
+	"github.com/hashicorp/go-multierror"
 	"reflect"
 	"strings"
 
@@ -766,6 +767,18 @@ func (rt *Runtime) exec(pi int, in []reflect.Value) (outs []reflect.Value, serr 
 		// the party returns the value it received as its error result (func(error) error)
 		rt.FaultsFired["echo_error"]++
 		rt.echo = in[0]
+		rt.Log = append(rt.Log, rec)
+		simrt.Yield(-2)
+		return nil, nil, false
+	}
+	if p.HasErr && rt.fault("multierror_single", pi, n) {
+		// the party's own error is a list of errors with one entry: still the party's
+		// error value, to be handed back as it is
+		rt.nerr++
+		rec.ErrAny = &multierror.Error{Errors: []error{&SimErr{N: rt.nerr, Party: pi, Exec: n}}}
+		rt.FaultsFired["multierror_single"]++
+		rt.anyErr = rec.ErrAny
+		rt.Sim.Event("fault-multierror", uint64(pi), uint64(n))
 		rt.Log = append(rt.Log, rec)
 		simrt.Yield(-2)
 		return nil, nil, false
